@@ -313,6 +313,13 @@ func genScenario(r *rand.Rand, so ScenOpts, marker string) *Scenario {
 					creq.Msgs = append(creq.Msgs, msg)
 					continue
 				}
+				if chance(r, 12) {
+					o.marker, o.density = "", pick(r, []int{0, 0, 1}) // unmarked, mostly empty message
+					if chance(r, 50) && !isHTTPBodyMsg(m.In()) {
+						creq.Msgs = append(creq.Msgs, newMsg(m.In()))
+						continue
+					}
+				}
 				creq.Msgs = append(creq.Msgs, genMessage(r, m.In(), o))
 			}
 		}
@@ -327,6 +334,11 @@ func genScenario(r *rand.Rand, so ScenOpts, marker string) *Scenario {
 		for i := 0; i < nresp; i++ {
 			o := gopts
 			o.marker = fmt.Sprintf("%s/p%d", marker, i)
+			if chance(r, 12) && !isHTTPBodyMsg(m.Out()) {
+				// (an HttpBody without content type has no faithful REST representation)
+				script.Msgs = append(script.Msgs, newMsg(m.Out())) // empty message
+				continue
+			}
 			script.Msgs = append(script.Msgs, genMessage(r, m.Out(), o))
 		}
 		script.Comp = pick(r, []string{"", "gzip", "gzip", "zz"})
